@@ -471,8 +471,13 @@ func (t *Tpl) writeNode(w io.Writer, node *node, ctx *Ctx) (err error) {
 	case typeLoopCount:
 		// Evaluate counter loops.
 		// See Ctx.cloop().
+		brkD := ctx.brkD
 		ctx.brkD = 0
 		ctx.cloop(node, t, w)
+		if ctx.brkD < brkD {
+			// Keep the depth still pending for the enclosing loops.
+			ctx.brkD = brkD
+		}
 		if ctx.Err != nil {
 			err = ctx.Err
 			return
@@ -480,8 +485,13 @@ func (t *Tpl) writeNode(w io.Writer, node *node, ctx *Ctx) (err error) {
 	case typeLoopRange:
 		// Evaluate range loops.
 		// See Ctx.rloop().
+		brkD := ctx.brkD
 		ctx.brkD = 0
 		ctx.rloop(node.loopSrc, node, t, w)
+		if ctx.brkD < brkD {
+			// Keep the depth still pending for the enclosing loops.
+			ctx.brkD = brkD
+		}
 		if ctx.Err != nil {
 			err = ctx.Err
 			return
